@@ -70,6 +70,14 @@ def run(tier):
     runs, _ = vlib.validate_runs(rep, "RecoveryTrace", "RecoveryTrace", lp, wd, "entry_points", describe="stored image read back: {what}", strip=())
     ndm += len(runs)
     os.remove(lp)
+    # a WAL payload is arbitrary binary data: one that carries a well-formed entry, and the flipped bit of the (unchecksummed)
+    # length prefix that moves the end of the frame onto it - the reader may stop, it must not decode an entry nobody wrote
+    gp = os.path.join(wd, "ghost.ndjson")
+    vlib.vh(["wal", "format", "--only", "ghost", "--out", gp])
+    runs, _ = vlib.validate_runs(rep, "WalFormatTrace", "WalFormatTrace", gp, wd, "wal_payload_that_looks_like_an_entry",
+                                 describe="damaged WAL image decoded into an entry that was never written ({what})", strip=())
+    ndm += len(runs)
+    os.remove(gp)
     rep.cov["distinct_nontrivial"] = nrt + ndm
     rep.cov["rule"] = ("a case is one value through the four codecs and back, or one real image with one damage read by the real "
                        "reader; undamaged images are not counted")
